@@ -1,26 +1,26 @@
 SPECIFICATION Spec
 CONSTANTS
   NW = 2
-  NBatch = 3
-  RPB = 2
-  NSigs = 2
-  NHours = 2
-  NKeys = 1
-  MaxBuf = 3
-  QCap = 3
+  NBatch = 4
+  RPB = 1
+  NSigs = 1
+  NHours = 1
+  NKeys = 2
+  MaxBuf = 2
+  QCap = 1
   NWorkers = 1
   MaxIters = 2
   WalOn = FALSE
   FailKinds = {"error"}
-  MaxDown = 0
+  MaxDown = 1
   MaxRot = 0
   MaxTick = 0
   MaxAged = 1
-  Ops = {"flushall", "close"}
-  CloseAfterWrites = TRUE
+  Ops = {"flushall", "shutdown"}
+  CloseAfterWrites = FALSE
   CloseDrains = TRUE
   Coarse = FALSE
   Emit = FALSE
 VIEW view
-INVARIANTS TypeOK Accounted NoDup NoLoss
+INVARIANTS TypeOK Accounted LossExplained DupOnlyByReplay FlushAckHonest
 CHECK_DEADLOCK FALSE
